@@ -11,7 +11,7 @@ svars == << reg, fed >>
 
 SInit == reg = 0 /\ fed = << >>
 
-Write(chunk) == /\ reg' = CrcFrom(reg, chunk, 1)
+Write(chunk) == /\ reg' = CrcFold(reg, chunk)
                 /\ fed' = fed \o chunk
 
 Reset == reg' = 0 /\ fed' = << >>
